@@ -494,6 +494,11 @@ def run(ctx):
     check_wfn_build_obasis(ctx, "R21")
     ctx.rule("R23", "GRO frame: time of the title line, residue / atom columns, positions, velocities and the box are read from their own fields (frame reader evaluated on model frames)", "a negative time or one with an exponent read as another number, velocities taken from the position columns")
     check_gro_frame(ctx, "R23")
+    # a title that is blank, read through a frame loop's look-ahead, and the order in which a format lists the functions
+    # of a shell are "values in the file interpreted by the format's layout" as well: the look-ahead transparency clause
+    # (C13-R11) and the frozen convention tables (C10-R6)
+    ctx.borrow("c13", {"R11": "R24"})
+    ctx.borrow("c10", {"R6": "R25"})
     ctx.rule("R22", "VASP header: scaling factor, element / count expansion, selective-dynamics line, Cartesian or direct coordinates (reader evaluated on model headers)", "the universal scaling factor dropped from the cell or from Cartesian positions, fractional coordinates multiplied from the wrong side, counts attached to other elements")
     check_vasp_header(ctx, "R22")
 
